@@ -160,12 +160,12 @@ def gen_stack(rng, fspec, risk=True, chaos=True, gated=True, capital=1e6, flows=
     return st
 
 
-def gen_engine_plan(rng, family="mixed", tier="quick"):
+def gen_engine_plan(rng, family="mixed", tier="quick", risk_p=0.25):
     big = tier == "thorough"
     ndates = rng.randint(4, 40 if big else 24)
     ntick = rng.randint(2, 6 if big else 4)
     faults = {"late_listing": 0.15, "nan_tick": 0.05, "zero_tick": 0.03}
-    risk = rng.random() < 0.25
+    risk = rng.random() < risk_p
     style = None
     if risk:
         # risk-based weighting needs a gap-free window: business-day clock, listings only as prefixes
@@ -942,6 +942,12 @@ def gen_rebalance_plan(rng, tier="quick"):
         for i in range(rng.randint(1, 2)):
             kind = rng.choice(["cash", "invested", "invested"])
             st = [] if kind == "cash" else [{"a": "RunOnDate", "dates": [dates[rng.randrange(max(1, ndates // 2))]]}, {"a": "SelectThese", "args": [sorted(rng.sample(tickers, rng.randint(1, len(tickers))))]}, {"a": "WeighEqually"}, {"a": "Rebalance"}]
+            if kind == "invested" and rng.random() < 0.35:
+                # a long/short book inside the sub-strategy: capital moved in or out by the parent is spread over negative weights too
+                lg, sh = rng.sample(tickers, 2)
+                x = round(rng.uniform(0.2, 0.6), 2)
+                st = [st[0], {"a": "WeighSpecified", "weights": {lg: round(1.0 + x, 2) if rng.random() < 0.5 else 1.0, sh: -x}}, {"a": "Rebalance"}]
+                fired["short_inside_substrategy"] = 1
             root["children"].append({"k": "S", "name": "sub%d" % i, "cls": "Strategy", "fi": False, "how": "list", "children": [], "algos": st})
             subs.append("sub%d" % i)
         decl = rng.choice(["str", "obj"])
